@@ -107,7 +107,9 @@ def run(tier, seed, replay=None):
     credfile = os.path.join(tdir, "accepted")
     open(credfile, "w").write("carol|pw1\ndora|s3:cret\n")
     lp = {"req": e2e.free_port(), "opt": e2e.free_port()}
-    cmd = ["sh", "-c", "grep -qxF \"$0|$1\" %s" % credfile, "#USER#", "#PASS#"]
+    # the checker is a program like any other: it may exit with any code, or die by a signal (crash, OOM kill, watchdog)
+    cmd = ["sh", "-c", "case \"$0\" in kill9*) kill -9 $$;; segv*) kill -SEGV $$;; abrt*) kill -ABRT $$;; term*) kill -TERM $$;; pipe*) kill -PIPE $$;; exit2*) exit 2;; exit255*) exit 255;; exit126*) exit 126;; esac; "
+           "[ ${#1} -gt 64 ] && kill -SEGV $$; grep -qxF \"$0|$1\" %s" % credfile, "#USER#", "#PASS#"]
     listeners = [{"name": "req", "type": "socks", "bind": "%s:%d" % (LOOP, lp["req"]),
                   "auth": {"required": True, "users": [{"username": "alice", "password": "secret"}], "cmd": cmd, "cache": {"timeout": 2}}},
                  {"name": "opt", "type": "socks", "bind": "%s:%d" % (LOOP, lp["opt"]), "auth": {"required": False, "users": [{"username": "alice", "password": "secret"}]}}]
@@ -155,6 +157,11 @@ def run(tier, seed, replay=None):
         attempt("'dora:s3:cret' with an empty password after dora/'s3:cret' was cached", lp["req"], [2], (b"dora:s3:cret", b""), False)
         attempt("SOCKS4 id 'dora:s3:cret' after dora/'s3:cret' was cached", lp["req"], None, None, False, socks4_user=b"dora:s3:cret")
         attempt("'dor'/'a|s3:cret'... shifted split", lp["req"], [2], (b"dor", b"as3:cret"), False)
+        for u in (b"kill9", b"segv", b"abrt", b"term", b"pipe", b"exit2", b"exit255", b"exit126"):
+            attempt("command %s (checker dies by a signal / exits with another code than 0 or 1)" % u.decode(), lp["req"], [2], (u, b"x"), False)
+            attempt("command %s again (verdict from the cache)" % u.decode(), lp["req"], [2], (u, b"x"), False)
+        attempt("checker crashes on a password of 200 bytes", lp["req"], [2], (b"carol", b"p" * 200), False)
+        attempt("the same pair again (verdict from the cache)", lp["req"], [2], (b"carol", b"p" * 200), False)
         open(credfile, "w").write("nobody|x\n")           # revoked
         time.sleep(3.2)                                     # cache timeout 2 s
         attempt("carol/pw1 after revocation and cache expiry", lp["req"], [2], (b"carol", b"pw1"), False)
